@@ -294,6 +294,18 @@ impl Store {
     }
 }
 
+impl Store {
+    /// Like [`Self::modify`], but never commits an open write transaction because of its age.
+    ///
+    /// Used for the second half of an operation that must not be split over two transactions.
+    fn modify_in_current<T>(&mut self, f: impl FnOnce(&mut Tables) -> Result<T>) -> Result<T> {
+        if let CurrentTransaction::Write(ref mut tables) = self.transaction {
+            return tables.with_tables_mut(f);
+        }
+        self.modify(f)
+    }
+}
+
 type PeersIter = std::vec::IntoIter<PeerIdBytes>;
 
 impl Store {
@@ -764,7 +776,8 @@ impl<'a> crate::ranger::Store<SignedEntry> for StoreInstance<'a> {
 
     fn entry_put(&mut self, e: SignedEntry) -> Result<()> {
         let id = e.id();
-        self.store.as_mut().modify(|tables| {
+        // Stay in the transaction in which the superseded entries were removed.
+        self.store.as_mut().modify_in_current(|tables| {
             // insert into record table
             let key = (
                 &id.namespace().to_bytes(),
